@@ -122,3 +122,51 @@ extern "C" void h_exists()
     if (!one_layout) verif_assert(got == 0, "E0: no / ambiguous layout -> database_exists() is false");
     else verif_assert(got == 1 || got == -3, "E1: exactly one layout -> database_exists() is true (or loading fails for another reason)");
 }
+
+// C10 (create-or-load half): create_or_load_database creates a library exactly when none exists.  The real create_or_load_database and
+// load_database run over the same models as h_load; create_database itself is replaced by a recorder (what a creator writes is C11 / C12 / C17's
+// subject): verif_created() = number of calls, verif_created_schema() = the schema enumerator it was asked for (-1: never called).
+extern "C" int32_t verif_created(); extern "C" int32_t verif_created_schema();
+extern "C" void h_create_or_load()
+{
+    auto asked = (engine_schema)verif_range_u32(0, (uint32_t)engine_schema::schema_3_0_0, "asked");
+    engine_schema loaded = (engine_schema)verif_range_u32(0, (uint32_t)engine_schema::schema_3_0_0, "start");   // the documentation leaves it undefined after a creation: only checked after a load
+    bool created = verif::boolean("created0");
+    int got = -2;
+    try { auto db = create_or_load_database("dir", asked, created, loaded); got = 0; }
+    catch (const database_not_found&) { got = -1; }
+    catch (const unsupported_database&) { got = -4; }
+    catch (const std::exception&) { got = -3; }
+    verif_reach("col-called");
+    // version 3.0.0 is accepted although it is not among the supported versions: a listed known finding of C13, not judged again here
+    verif_assume(!(verif_db_major() == 3 && verif_db_minor() == 0 && verif_db_patch() == 0));
+    int d = verif_fs_exists("dir"), m = verif_fs_exists("dir/m.db"), m2 = verif_fs_exists("dir/Database2/m.db");
+    bool none = d != 1 || (m != 1 && m2 != 1);
+    bool both = d == 1 && m == 1 && m2 == 1;
+    bool readable = verif_db_info_tables() == 1 && verif_db_version_rows() == 1;
+    int want = readable ? ref_schema(verif_db_major(), verif_db_minor(), verif_db_patch(), verif_db_ext_numeric() == 1) : -1;
+    if (none)
+    {
+        verif_reach("col-none");
+        verif_assert(got == 0 && created && verif_created() == 1, "C10: create_or_load_database did not create a library although none exists");
+        verif_assert(verif_created_schema() == (int)asked, "C10: create_or_load_database created a library of another schema version than the one asked for");
+        verif_assert(verif_dispatched() == 0, "C10: create_or_load_database opened database files although none exists");
+        return;
+    }
+    if (both) return;      // both layouts: load_database documents database_not_found (C13 L2); what create-or-load then does is not stated - not asserted
+    // exactly one library exists: it must never be created over, whatever it holds
+    verif_reach("col-exists");
+    verif_assert(verif_created() == 0, "C10: create_or_load_database created a library although one exists in the directory (an unreadable or unsupported library would be written over)");
+    if (got == 0)
+    {
+        verif_reach("col-loaded");
+        verif_assert(!created, "C10: create_or_load_database reports 'created' for a library that it loaded");
+        verif_assert(want >= 0 && (int)loaded == want, "C10: create_or_load_database does not report the schema version stored in the library it loaded");
+    }
+    else
+    {
+        // (as in P1: the model answers every query independently, so a second attached file may disagree with the first - an error other than the three judged ones)
+        verif_assert(want < 0 || got == -3, "C10: create_or_load_database rejects an existing library of a supported version as unsupported or not found");
+        if (readable && want < 0) { verif_assert(got == -4, "C10: an existing library of an unsupported version is not reported as unsupported_database"); }
+    }
+}
